@@ -61,6 +61,7 @@ type Explorer struct {
 	steps       int64
 	maxViol     int
 	verbose     bool
+	forkSites   map[string]int
 }
 
 func newExplorer(cfg *Config, entry *ssa.Function) *Explorer {
@@ -77,6 +78,15 @@ func (ex *Explorer) push(it WorkItem) {
 	ex.forks++
 	ex.mu.Unlock()
 	ex.cond.Signal()
+}
+
+func (ex *Explorer) noteFork(site string) {
+	ex.mu.Lock()
+	if ex.forkSites == nil {
+		ex.forkSites = map[string]int{}
+	}
+	ex.forkSites[site]++
+	ex.mu.Unlock()
 }
 
 func (ex *Explorer) noteUnknown(msg string) {
